@@ -1083,6 +1083,7 @@ func checkC13(c *Ctx) {
 		}
 		h.agreementCase(r, t, i%tokEvery == 0)
 	}
+	h.emptyDocuments(types)
 	h.probeCaseFold(c.RNG.Fork())
 	res.Notes = append(res.Notes, fmt.Sprintf("token corruptions decoded: %d (errors %d, complete values %d); ill-typed documents: %d", h.nTok, h.nTokErr, h.nTokOK, h.nBad))
 }
@@ -1612,5 +1613,39 @@ func (h *c13Harness) probeCaseFold(r *RNG) {
 	h.res.Case("casefold", true, cs)
 	if len(differing) > 0 {
 		h.known("D30-case-folded-keys", "encoding/json, cue and go-toml match a document key that differs from the field's key only in letter case, yaml.v2 does not: the same document sets the leaf in three decoders and leaves it unset in one", cs, exp, differing)
+	}
+}
+
+// emptyDocuments: a document that expresses NO data (the file is there, but empty, or holds only white space or a
+// comment; `{}` for JSON, which has no empty document) decodes to the all-unset value in every format - a present but
+// empty file is not an error, and all four decoders agree on it.  An empty text is not a JSON document: an error.
+func (h *c13Harness) emptyDocuments(types []*c13Type) {
+	docs := map[string][]string{
+		"yaml": {"", "\n", "# nothing configured yet\n", "  \n\n", "{}\n", "---\n"},
+		"toml": {"", "\n", "# nothing configured yet\n"},
+		"cue":  {"", "\n", "// nothing configured yet\n", "{}\n"},
+		"json": {"{}", " { } \n"},
+	}
+	for _, t := range types {
+		if t.class != "" {
+			continue
+		}
+		for _, f := range c13Formats {
+			for _, text := range docs[f] {
+				got, v := c13Value(f, false, false, t.pt, text)
+				cs := c13Case{Type: t.name, Format: f, Docs: map[string]string{f: text}}
+				h.res.Count("empty-document/" + f)
+				switch {
+				case !strings.HasPrefix(got, "ok "):
+					h.finding("violation", "a document that holds no data (present but empty) did not decode to the all-unset value", cs, "ok, every leaf unset", got, nil)
+				case !v.IsZero():
+					h.finding("violation", "a document that holds no data set a leaf", cs, "every leaf unset", got, nil)
+				}
+				h.res.Case("EMPTY|"+t.name+"|"+f+"|"+text, false, map[string]any{"type": t.name, "format": f, "document": text})
+			}
+		}
+		if got, _ := c13Value("json", false, false, t.pt, ""); !c13IsErr(got) {
+			h.finding("violation", "the empty text is not a JSON document, but the JSON decoder accepted it", c13Case{Type: t.name, Format: "json", Docs: map[string]string{"json": ""}}, "error", got, nil)
+		}
 	}
 }
